@@ -446,3 +446,42 @@ def fmtwidth(repo):
     res.samples = [f"end-of-line token classes {sorted(eol_classes)} are stripped before formatting"]
     res.analysed = [G.FORMAT_EMB, G.TOKENIZER]
     return res
+
+
+# ---------------------------------------------------------------------------------------------------------
+def fmtblank(repo):
+    """R-FMTBLANK (C11): the formatter may drop rows that carry no token (blank lines are not tokens).  Whether a row is
+    blank has to be decided from its columns being empty or whitespace; a test that first strips *other* characters from
+    the row's text (`.strip("# ")`, `.replace("#", "")`) calls a row blank although it holds a Comment token, and the
+    token disappears from the formatted file."""
+    res = RuleResult("R-FMTBLANK")
+    m = repo.mod(G.FORMAT_EMB)
+    for f in m.top_funcs():
+        for n in walk_no_nested_funcs(f.node):
+            if not (isinstance(n, ast.Call) and isinstance(n.func, ast.Attribute)):
+                continue
+            if ".columns" not in ast.unparse(n.func.value) and "columns" not in ast.unparse(n.func.value):
+                continue
+            if n.func.attr in ("strip", "lstrip", "rstrip"):
+                res.instances += 1
+                if n.args and isinstance(n.args[0], ast.Constant) and isinstance(n.args[0].value, str) and n.args[0].value.strip():
+                    res.add(f"{G.FORMAT_EMB}|{f.name}|strip", f"{f.name} strips {n.args[0].value!r} from a row's text (`{ast.unparse(n)[:80]}`): "
+                            "characters of tokens are treated as blank space, so a row holding only such a token (a bare `#` comment) "
+                            "counts as empty and is dropped", G.FORMAT_EMB, n.lineno, f.name)
+            elif n.func.attr == "replace" and len(n.args) == 2 and isinstance(n.args[0], ast.Constant) and isinstance(n.args[1], ast.Constant) \
+                    and n.args[1].value == "" and str(n.args[0].value).strip():
+                res.instances += 1
+                res.add(f"{G.FORMAT_EMB}|{f.name}|replace", f"{f.name} deletes {n.args[0].value!r} from a row's text", G.FORMAT_EMB, n.lineno, f.name)
+    # rows are tested for emptiness somewhere: count those tests so the rule is not vacuous
+    tests = 0
+    for f in m.top_funcs():
+        for n in walk_no_nested_funcs(f.node):
+            t = getattr(n, "test", None)
+            if t is not None and "columns" in ast.unparse(t):
+                tests += 1
+    res.instances += tests
+    if tests < 2:
+        raise AnalysisError("format_emb: no emptiness tests on row columns found")
+    res.samples = [f"{tests} tests on row columns; none strips token characters"]
+    res.analysed = [G.FORMAT_EMB]
+    return res
